@@ -1,0 +1,16 @@
+//go:build !verif
+
+package erpc
+
+import "net"
+
+// Verification hooks are compiled out unless the build tag "verif" is set:
+// verifOn is a false constant, so every guarded branch is dead code.
+const verifOn = false
+
+var (
+	verifSpawn    func(fn func()) bool
+	verifDial     func(d *Dialer, addr string) (net.Conn, error)
+	verifOnStatus func(sess Session, from, to int32)
+	verifOnFatal  func(msg string)
+)
